@@ -243,7 +243,27 @@ def c06(args):
     return {'reproduced': bool(bad), 'detail': [str(b) for b in bad[:6]]}
 
 
-RECIPES = {'c10': c10, 'c03': c03, 'c06': c06, 'linear_interp': linear_interp, 'c12': c12, 'c13': c13}
+def history(args):
+    """Replay a counter-model of the history stand-in: queries q0, q1, ..., then q0 again, on BrownianInterval(t0, t1)."""
+    qs = args['queries']
+    bad = []
+    for levy in ('none', 'space-time'):
+        for kw in (dict(cache_size=0), dict(cache_size=None), dict(cache_size=1)):
+            bm = torchsde.BrownianInterval(args.get('t0', -1.), args.get('t1', 1.), size=(2,), entropy=9, levy_area_approximation=levy,
+                                           dtype=torch.float64, **kw)
+            ru = levy != 'none'
+            first = bm(qs[0][0], qs[0][1], return_U=ru)
+            for (a, b) in qs[1:]:
+                bm(a, b, return_U=ru)
+            again = bm(qs[0][0], qs[0][1], return_U=ru)
+            f = first if isinstance(first, tuple) else (first,)
+            g = again if isinstance(again, tuple) else (again,)
+            if any(not torch.equal(x, y) for x, y in zip(f, g)):
+                bad.append((levy, kw, [(x - y).abs().max().item() for x, y in zip(f, g)]))
+    return {'reproduced': bool(bad), 'detail': {'queries': qs, 'mismatches': [str(b) for b in bad[:4]]}}
+
+
+RECIPES = {'c10': c10, 'c03': c03, 'c06': c06, 'history': history, 'linear_interp': linear_interp, 'c12': c12, 'c13': c13}
 
 if __name__ == '__main__':
     name = sys.argv[1]
